@@ -5,7 +5,7 @@ SRC=${1:-/repo}
 B=$(mktemp -d /tmp/ccbase.XXXXXX)
 trap 'rm -rf "$B"' EXIT
 cmake -G Ninja -S "$SRC" -B "$B" >"$B/cfg.log" 2>&1 || { cat "$B/cfg.log"; exit 2; }
-cmake --build "$B" >"$B/build.log" 2>&1 || { tail -50 "$B/build.log"; exit 2; }
+cmake --build "$B" >"$B/build.log" 2>&1 || { grep -B2 -A6 "error" "$B/build.log" | head -30; exit 2; }
 ctest --test-dir "$B" -j8 --timeout 900 >"$B/ctest.log" 2>&1
 rc=$?
 tail -4 "$B/ctest.log"
